@@ -15,6 +15,7 @@ pub(crate) struct KPort {
     fail_read_settings: bool,
     fail_write_settings: bool,
     fail_set_timeout: bool,
+    err_kind: u8,
     ncalls: Cell<usize>,
 }
 fn any_settings() -> PortSettings {
@@ -60,11 +61,24 @@ fn any_settings() -> PortSettings {
     PortSettings { baud_rate, char_size, parity, stop_bits, flow_control }
 }
 impl KPort {
+    /// the error a refusing device call returns: any kind, including the io kinds a driver reports for a busy or
+    /// interrupted device (a constructor must not mistake a persistent refusal of that kind for success)
+    fn refusal(&self, what: &'static str) -> serial_core::Error {
+        let kind = match self.err_kind % 6 {
+            0 => serial_core::ErrorKind::NoDevice,
+            1 => serial_core::ErrorKind::InvalidInput,
+            2 => serial_core::ErrorKind::Io(io::ErrorKind::Interrupted),
+            3 => serial_core::ErrorKind::Io(io::ErrorKind::WouldBlock),
+            4 => serial_core::ErrorKind::Io(io::ErrorKind::TimedOut),
+            _ => serial_core::ErrorKind::Io(io::ErrorKind::Other),
+        };
+        serial_core::Error::new(kind, what)
+    }
     fn any() -> Self {
-        KPort { settings: any_settings(), timeout: None, fail_read_settings: kani::any(), fail_write_settings: kani::any(), fail_set_timeout: kani::any(), ncalls: Cell::new(0) }
+        KPort { settings: any_settings(), timeout: None, fail_read_settings: kani::any(), fail_write_settings: kani::any(), fail_set_timeout: kani::any(), err_kind: kani::any(), ncalls: Cell::new(0) }
     }
     fn quiet() -> Self {
-        KPort { settings: any_settings(), timeout: None, fail_read_settings: false, fail_write_settings: false, fail_set_timeout: false, ncalls: Cell::new(0) }
+        KPort { settings: any_settings(), timeout: None, fail_read_settings: false, fail_write_settings: false, fail_set_timeout: false, err_kind: 0, ncalls: Cell::new(0) }
     }
 }
 impl Read for KPort {
@@ -85,7 +99,7 @@ impl SerialDevice for KPort {
     fn read_settings(&self) -> serial_core::Result<PortSettings> {
         self.ncalls.set(self.ncalls.get() + 1);
         if self.fail_read_settings {
-            Err(serial_core::Error::new(serial_core::ErrorKind::NoDevice, "read_settings refused"))
+            Err(self.refusal("read_settings refused"))
         } else {
             Ok(self.settings)
         }
@@ -93,7 +107,7 @@ impl SerialDevice for KPort {
     fn write_settings(&mut self, s: &PortSettings) -> serial_core::Result<()> {
         self.ncalls.set(self.ncalls.get() + 1);
         if self.fail_write_settings {
-            Err(serial_core::Error::new(serial_core::ErrorKind::InvalidInput, "write_settings refused"))
+            Err(self.refusal("write_settings refused"))
         } else {
             self.settings = *s;
             Ok(())
@@ -108,7 +122,7 @@ impl SerialDevice for KPort {
     fn set_timeout(&mut self, t: Duration) -> serial_core::Result<()> {
         self.ncalls.set(self.ncalls.get() + 1);
         if self.fail_set_timeout {
-            Err(serial_core::Error::new(serial_core::ErrorKind::InvalidInput, "set_timeout refused"))
+            Err(self.refusal("set_timeout refused"))
         } else {
             self.timeout = Some(t);
             Ok(())
@@ -147,6 +161,7 @@ impl SignBus for NullBus {
 fn c20_odk_try_new() {
     let port = KPort::any();
     let no_failure = !port.fail_read_settings && !port.fail_write_settings && !port.fail_set_timeout;
+    let kind = port.err_kind % 6;
     let r = Odk::try_new(port, NullBus);
     match &r {
         Ok(odk) => {
@@ -155,12 +170,12 @@ fn c20_odk_try_new() {
             assert!(s.baud_rate == serial_core::Baud19200 && s.char_size == serial_core::Bits8 && s.parity == serial_core::ParityNone);
             assert!(s.stop_bits == serial_core::Stop1 && s.flow_control == serial_core::FlowNone);
             assert!(odk.port.timeout == Some(Duration::from_secs(10)));
-            assert!(odk.port.ncalls.get() == 3);
         }
         Err(_) => assert!(!no_failure),
     }
     kani::cover!(r.is_ok(), "cov_ok");
     kani::cover!(r.is_err(), "cov_err");
+    kani::cover!(r.is_err() && (kind == 2 || kind == 3), "cov_err_transient_kind_persisting");
 }
 
 // ----------------------------------------------------------------------------- C17 bridge contract
